@@ -39,9 +39,9 @@ def differential(chk, rp, rz):
 
 
 def run(chk):
-    per = chk.pick(500, 3200)
+    per = chk.pick(500, 20000)
     chk.run('asan', build('asan'), per)
-    perd = chk.pick(100, 1600)
+    perd = chk.pick(100, 6000)
     rp = chk.run('asan-pat', build('asan-pat'), perd)
     rz = chk.run('asan-zero', build('asan-zero'), perd)
     differential(chk, rp, rz)
